@@ -58,8 +58,11 @@ class EgoPose:
         x, y, z = pos
         return (c * x - s * y + self.t[0], s * x + c * y + self.t[1], z + self.t[2]), yaw + self.yaw
 
+    def matrices(self):
+        return [HomogeneousMatrix(self.t, self.q, src=FrameID.BASE_LINK, dst=FrameID.MAP)]
+
     def transforms(self) -> TransformDict:
-        return TransformDict(HomogeneousMatrix(self.t, self.q, src=FrameID.BASE_LINK, dst=FrameID.MAP))
+        return TransformDict(self.matrices())
 
 
 IDENT_TF = None
@@ -121,7 +124,7 @@ def obj2d(offset, *, size=(2, 2), label="car", score=0.9, uuid=None, time=1000, 
 
 
 def frame_gt(objects, *, time=1000, name="0", ego: EgoPose | None = None, raw=None):
-    tf = (ego or EgoPose()).transforms()
+    tf = (ego or EgoPose()).matrices()
     return FrameGroundTruth(unix_time=time, frame_name=name, objects=list(objects), transforms=tf, raw_data=raw)
 
 
